@@ -319,3 +319,380 @@ theorem iter_mem {p : Params} {s : UState} {k : Nat} {e : UEntry}
 
 end Unsync
 end MiniMoka
+
+namespace MiniMoka
+namespace Unsync
+
+open Spec
+
+/-! ### an insert with room loses nothing -/
+
+theorem insert_keeps {P : Sketch → Prop} {p : Params} (hq : NoQuirks p) {s : UState}
+    (hi : Inv P p s) (k v : Nat)
+    (hfit : hasEnoughCapacity p (p.weigh k v) (maintain p s).ws = true) :
+    (∃ e, AL.get? (insert p s k v).map k = some e) ∧
+    (∀ k' e', AL.get? (maintain p s).map k' = some e' →
+      ∃ e'', AL.get? (insert p s k v).map k' = some e'') := by
+  cases hg : AL.get? (maintain p s).map k with
+  | none =>
+    obtain ⟨⟨e, h1, _⟩, h2⟩ := C03B_unsync_aux hq hi k v hg hfit
+    refine ⟨⟨e, h1⟩, ?_⟩
+    intro k' e' h
+    obtain ⟨e'', h3, _⟩ := h2 k' e' h
+    exact ⟨e'', h3⟩
+  | some old =>
+    rw [insert_map_of_resident hq hi.inv v hg]
+    refine ⟨⟨_, AL.get?_put_self _ _ _⟩, ?_⟩
+    intro k' e' h
+    rw [AL.get?_put]
+    by_cases hk : k = k'
+    · exact ⟨_, by rw [if_pos hk]⟩
+    · exact ⟨e', by rw [if_neg hk]; exact h⟩
+
+/-- Weight an operation may add: the weight of the inserted entry. -/
+def insW (p : Params) : Op → Nat
+  | .ins k v => p.weigh k v
+  | _ => 0
+
+theorem insert_ws_le_add {p : Params} (hq : NoQuirks p) {s : UState} (hi : InvU p s) (k v : Nat) :
+    (insert p s k v).ws ≤ s.ws + p.weigh k v := by
+  obtain ⟨h1, _, _⟩ := maintain_spec hq hi
+  have hle1 : (maintain p s).ws ≤ s.ws := maintain_ws_le hq hi
+  unfold insert
+  dsimp only
+  cases hg : AL.get? (maintain p s).map k with
+  | some old =>
+    dsimp only
+    obtain ⟨id, n, _, _, _, heq⟩ := handleUpdate_eq (entry := { val := v, weight := p.weigh k v })
+      h1.struct hg (opTs p (maintain p s)) (p.weigh k v) (opTs_isSome p _)
+    rw [heq]
+    dsimp only
+    cases old.wo with
+    | none => simp only [touchAo]; omega
+    | some wid =>
+      dsimp only
+      split
+      · simp only [touchAo, touchWo]; omega
+      · split <;> (simp only [touchAo]; omega)
+  | none =>
+    dsimp only
+    rcases handleInsert_ws p
+        { maintain p s with
+          map := (AL.put (maintain p s).map k ({ val := v, weight := p.weigh k v } : UEntry)) }
+        k (p.hash k) (p.weigh k v) (opTs p (maintain p s))
+      with ⟨_, hws⟩ | ⟨_, hws⟩ | ⟨_, _, vw, _, hws⟩
+    all_goals (rw [hws]; dsimp only; omega)
+
+/-- `weighted_size` grows by at most the weight of what is inserted. -/
+theorem step_ws_le_add {P : Sketch → Prop} (L : SketchLaws P) {p : Params} (hq : NoQuirks p)
+    (hsm : SmallSketch p) {s : UState} (hi : Inv P p s) (op : Op) :
+    (step p s op).1.ws ≤ s.ws + insW p op := by
+  rw [step_state L hq hsm hi op]
+  cases op with
+  | ins k v => exact insert_ws_le_add hq hi.inv k v
+  | get k => dsimp only [insW]; rw [get_ws]; exact maintain_ws_le hq hi.inv
+  | has k => dsimp only [insW]; rw [containsKey_state]; exact maintain_ws_le hq hi.inv
+  | iter => exact Nat.le_refl _
+  | inv k => exact invalidate_ws_le hq hi k
+  | invAll => simp [invalidateAll]
+  | invIf pr => exact invalidateEntriesIf_ws_le hq hi pr
+  | sync => exact Nat.le_refl _
+  | adv d => exact Nat.le_refl _
+  | snap => exact Nat.le_refl _
+  | freq k => exact Nat.le_refl _
+
+end Unsync
+end MiniMoka
+
+namespace MiniMoka
+namespace Unsync
+
+open Spec
+
+/-! ### the two-way coupling and the step theorem -/
+
+/-- Model state and reference agree: every resident is a live reference entry with the same
+value and timestamps (`sound`), and every entry the reference requires is resident
+(`complete`). -/
+structure CoupledR (p : Params) (s : UState) (r : Ref) : Prop where
+  sound : Coupled p s (toGhost r)
+  ok : RefOk r
+  complete : Complete p s r
+
+theorem coupledR_init (p : Params) : CoupledR p {} {} :=
+  ⟨init_coupled p, refOk_init, fun k re h => by simp at h⟩
+
+/-- The per-observation check of `Spec.exactC03`. -/
+def checkExact (ttl tti : Option Nat) (r : Ref) (op : Op) (obs : Obs) : Bool :=
+  match op, obs with
+  | .get k, .val res =>
+    (match AL.get? r.ents k with
+     | some e => !(mustLive ttl tti r e) || res == some e.val
+     | none => true)
+  | .has k, .bool b =>
+    (match AL.get? r.ents k with
+     | some e => !(mustLive ttl tti r e) || b
+     | none => true)
+  | .iter, .iter l =>
+    r.ents.all fun ke => !(mustLive ttl tti r ke.2) || l.contains (ke.1, ke.2.val)
+  | _, _ => true
+
+theorem exactC03_cons (kind : Kind) (ttl tti : Option Nat) (r : Ref) (op : Op) (obs : Obs)
+    (rest : Trace) :
+    exactC03 kind ttl tti r ((op, obs) :: rest) =
+      if stops obs then true
+      else (checkExact ttl tti r op obs && exactC03 kind ttl tti (refStep kind r op obs) rest) := by
+  conv => lhs; unfold exactC03
+  rfl
+
+theorem dead_not_mustLive {ttl tti : Option Nat} {r : Ref} {e : REntry} (h : e.alive = false) :
+    mustLive ttl tti r e = false := by
+  simp [mustLive, h]
+
+/-- One step with room for what it inserts (`hroom`; vacuous without `max_capacity`): the
+lookup returns everything the reference requires, and the coupling is re-established. -/
+theorem step_exact {P : Sketch → Prop} (L : SketchLaws P) {p : Params} (hq : NoQuirks p)
+    (hsm : SmallSketch p) {s : UState} {r : Ref} (hi : Inv P p s) (hcr : CoupledR p s r) (op : Op)
+    (hroom : ∀ c, p.cap = some c → s.ws + insW p op ≤ c) :
+    stops (step p s op).2 = true ∨
+    (checkExact p.ttl p.tti r op (step p s op).2 = true ∧
+      CoupledR p (step p s op).1 (refStep .unsync r op (step p s op).2)) := by
+  have hfit : ∀ c, p.cap = some c → s.ws ≤ c := fun c hc => by have := hroom c hc; omega
+  have hsound' : Coupled p (step p s op).1 (toGhost (refStep .unsync r op (step p s op).2)) := by
+    rw [toGhost_refStep]; exact (step_coupled L hq hsm hi hcr.sound op).2
+  have hok' := refOk_step hcr.ok op (step p s op).2
+  suffices h : stops (step p s op).2 = true ∨
+      (checkExact p.ttl p.tti r op (step p s op).2 = true ∧
+        Complete p (step p s op).1 (refStep .unsync r op (step p s op).2)) by
+    rcases h with h | ⟨h1, h2⟩
+    · exact Or.inl h
+    · exact Or.inr ⟨h1, ⟨hsound', hok', h2⟩⟩
+  -- what the reference requires is still there after the maintenance
+  have hkeep : ∀ k re, AL.get? r.ents k = some re → mustLive p.ttl p.tti r re = true →
+      ∃ e, AL.get? (maintain p s).map k = some e ∧ e.val = re.val ∧
+        isExpiredEntry p (maintain p s) e (maintain p s).now = false :=
+    fun k re h1 h2 => complete_maintain hq hi hcr.sound hcr.ok hcr.complete hfit h1 h2
+  rw [step_obs L hq hsm hi op, step_state L hq hsm hi op]
+  cases op with
+  | ins k v =>
+    right
+    refine ⟨rfl, ?_⟩
+    dsimp only
+    have hfitI : hasEnoughCapacity p (p.weigh k v) (maintain p s).ws = true := by
+      unfold hasEnoughCapacity
+      cases hc : p.cap with
+      | none => rfl
+      | some c =>
+        have h1 := hroom c hc
+        have h2 := maintain_ws_le hq hi.inv
+        simp only [insW] at h1
+        simp only [decide_eq_true_eq]
+        omega
+    obtain ⟨hk, hothers⟩ := insert_keeps hq hi k v hfitI
+    intro k' re' hre' hl'
+    simp only [refStep, AL.get?_put] at hre'
+    by_cases hkk : k = k'
+    · subst hkk; exact hk
+    · rw [if_neg hkk] at hre'
+      have hl : mustLive p.ttl p.tti r re' = true := hl'
+      obtain ⟨e, he, _, _⟩ := hkeep k' re' hre' hl
+      exact hothers k' e he
+  | get k =>
+    right
+    dsimp only
+    refine ⟨?_, ?_⟩
+    · simp only [checkExact]
+      cases hre : AL.get? r.ents k with
+      | none => rfl
+      | some re =>
+        dsimp only
+        by_cases hl : mustLive p.ttl p.tti r re = true
+        · obtain ⟨e, he, hv, hx⟩ := hkeep k re hre hl
+          rw [get_result L hq hi he hx, hv]
+          simp
+        · simp [hl]
+    · intro k' re' hre' hl'
+      rw [get_map]
+      have hsame : ∀ (r' : Ref), r' = r → AL.get? r'.ents k' = some re' →
+          mustLive p.ttl p.tti r' re' = true → ∃ e, AL.get? (maintain p s).map k' = some e := by
+        intro r' hr' h1 h2
+        subst hr'
+        obtain ⟨e, he, _, _⟩ := hkeep k' re' h1 h2
+        exact ⟨e, he⟩
+      cases hres : (get p s k).2 with
+      | none =>
+        rw [hres] at hre' hl'
+        exact hsame _ rfl hre' hl'
+      | some v =>
+        rw [hres] at hre' hl'
+        simp only [refStep] at hre' hl'
+        cases hre : AL.get? r.ents k with
+        | none =>
+          rw [hre] at hre' hl'
+          exact hsame _ rfl hre' hl'
+        | some re =>
+          rw [hre] at hre' hl'
+          dsimp only at hre' hl'
+          by_cases hkk : k = k'
+          · subst hkk; exact get_some_resident p s k hres
+          · rw [AL.get?_put_ne _ hkk] at hre'
+            have hl : mustLive p.ttl p.tti r re' = true := hl'
+            exact hsame _ rfl hre' hl
+  | has k =>
+    right
+    dsimp only
+    refine ⟨?_, ?_⟩
+    · simp only [checkExact]
+      cases hre : AL.get? r.ents k with
+      | none => rfl
+      | some re =>
+        dsimp only
+        by_cases hl : mustLive p.ttl p.tti r re = true
+        · obtain ⟨e, he, _, hx⟩ := hkeep k re hre hl
+          rw [containsKey_result he hx]
+          simp
+        · simp [hl]
+    · intro k' re' hre' hl'
+      rw [containsKey_state]
+      obtain ⟨e, he, _, _⟩ := hkeep k' re' hre' hl'
+      exact ⟨e, he⟩
+  | iter =>
+    right
+    dsimp only
+    refine ⟨?_, hcr.complete⟩
+    simp only [checkExact, List.all_eq_true]
+    rintro ⟨k, re⟩ hmem
+    have hre := AL.get?_of_mem hcr.ok.nodup hmem
+    by_cases hl : mustLive p.ttl p.tti r re = true
+    · obtain ⟨e, he⟩ := hcr.complete k re hre hl
+      obtain ⟨hv, hx⟩ := live_entry hcr.sound hcr.ok hre hl he
+      have := iter_mem he hx
+      rw [hv] at this
+      simp [this]
+    · simp [hl]
+  | inv k =>
+    right
+    refine ⟨rfl, ?_⟩
+    dsimp only
+    intro k' re' hre' hl'
+    simp only [refStep, get?_mapEnts] at hre'
+    cases hre : AL.get? r.ents k' with
+    | none => rw [hre] at hre'; cases hre'
+    | some re =>
+      rw [hre] at hre'
+      simp only [Option.map_some, Option.some.injEq] at hre'
+      by_cases hkk : k' = k
+      · have : re'.alive = false := by rw [← hre']; simp [hkk]
+        rw [dead_not_mustLive this] at hl'; cases hl'
+      · have hsame : re' = re := by rw [← hre']; simp [hkk]
+        subst hsame
+        have hl : mustLive p.ttl p.tti r re' = true := hl'
+        obtain ⟨e, he, _, _⟩ := hkeep k' re' hre hl
+        refine ⟨e, ?_⟩
+        rw [invalidate_exact hq hi k k', if_neg (Ne.symm hkk)]
+        exact he
+  | invAll =>
+    right
+    refine ⟨rfl, ?_⟩
+    dsimp only
+    intro k' re' hre' hl'
+    simp only [refStep, get?_mapEnts] at hre'
+    cases hre : AL.get? r.ents k' with
+    | none => rw [hre] at hre'; cases hre'
+    | some re =>
+      rw [hre] at hre'
+      simp only [Option.map_some, Option.some.injEq] at hre'
+      have : re'.alive = false := by rw [← hre']
+      rw [dead_not_mustLive this] at hl'; cases hl'
+  | invIf pr =>
+    right
+    refine ⟨rfl, ?_⟩
+    dsimp only
+    intro k' re' hre' hl'
+    simp only [refStep, get?_mapEnts] at hre'
+    cases hre : AL.get? r.ents k' with
+    | none => rw [hre] at hre'; cases hre'
+    | some re =>
+      rw [hre] at hre'
+      simp only [Option.map_some, Option.some.injEq] at hre'
+      cases hpr : pr.eval k' re.val with
+      | true =>
+        have : re'.alive = false := by rw [← hre']; simp [hpr]
+        rw [dead_not_mustLive this] at hl'; cases hl'
+      | false =>
+        have hsame : re' = re := by rw [← hre']; simp [hpr]
+        subst hsame
+        have hl : mustLive p.ttl p.tti r re' = true := hl'
+        obtain ⟨e, he⟩ := hcr.complete k' re' hre hl
+        obtain ⟨hv, _⟩ := live_entry hcr.sound hcr.ok hre hl he
+        exact ⟨e, (invalidateEntriesIf_exact hq hi pr k' e).mpr ⟨he, by rw [hv]; exact hpr⟩⟩
+  | sync => left; rfl
+  | adv d =>
+    right
+    refine ⟨rfl, ?_⟩
+    dsimp only
+    intro k' re' hre' hl'
+    have hl : mustLive p.ttl p.tti r re' = true :=
+      mustLive_mono (r := r) (by simp [refStep]) hl'
+    exact hcr.complete k' re' hre' hl
+  | snap => right; exact ⟨rfl, hcr.complete⟩
+  | freq k => right; exact ⟨rfl, hcr.complete⟩
+
+end Unsync
+end MiniMoka
+
+namespace MiniMoka
+namespace Unsync
+
+open Spec
+
+/-! ### lifting to traces -/
+
+/-- Total weight inserted by a history. -/
+def totalIns (p : Params) : List Op → Nat
+  | [] => 0
+  | op :: rest => insW p op + totalIns p rest
+
+theorem totalInserted_run (p : Params) : ∀ (h : List Op) (s : UState),
+    totalInserted p.weigh (run p s h) = totalIns p h := by
+  intro h
+  induction h with
+  | nil => intro s; rfl
+  | cons op rest ih =>
+    intro s
+    rw [run_cons]
+    cases op <;> simp [totalInserted, totalIns, insW, ih]
+
+/-- `exactC03` accepts every run of the model from coupled states, as long as the capacity (if
+any) has room for everything the history still inserts. -/
+theorem exactC03_run {P : Sketch → Prop} (L : SketchLaws P) {p : Params} (hq : NoQuirks p)
+    (hsm : SmallSketch p) :
+    ∀ (h : List Op) (s : UState) (r : Ref), Inv P p s → CoupledR p s r →
+      (∀ c, p.cap = some c → s.ws + totalIns p h ≤ c) →
+      exactC03 .unsync p.ttl p.tti r (run p s h) = true := by
+  intro h
+  induction h with
+  | nil => intro s r _ _ _; rfl
+  | cons op rest ih =>
+    intro s r hi hcr hroom
+    rw [run_cons, exactC03_cons]
+    split
+    · rfl
+    · rename_i hns
+      have hroom1 : ∀ c, p.cap = some c → s.ws + insW p op ≤ c := by
+        intro c hc
+        have := hroom c hc
+        simp only [totalIns] at this
+        omega
+      rcases step_exact L hq hsm hi hcr op hroom1 with h | ⟨h1, h2⟩
+      · exact absurd h hns
+      · rw [Bool.and_eq_true]
+        refine ⟨h1, ih _ _ (step_inv L hq hsm hi op) h2 ?_⟩
+        intro c hc
+        have h3 := hroom c hc
+        have h4 := step_ws_le_add L hq hsm hi op
+        simp only [totalIns] at h3
+        omega
+
+end Unsync
+end MiniMoka
